@@ -163,6 +163,7 @@ def main():
     for q, why in P["undecided"]: notes.append(f"UNDECIDED function={q} reason={why}")
     for e in P["engine_errors"]: notes.append("ENGINE-ERROR " + e.splitlines()[0]); print(e, file=sys.stderr)
     if B and B.get("crashed"): notes.append("BOUNDED-CRASHED"); print(B["_stderr"], file=sys.stderr)
+    if B and "HARNESS-ERROR" in B.get("_stderr", ""): notes.append("UNDECIDED bounded harness raised internal errors (see stderr); those cases were not evaluated"); print(B["_stderr"], file=sys.stderr)
     # ---- evidence
     discharged = [o for o in own if o["ok"]]
     proof_complete = bool(own) and not failed and not P["undecided"] and not P["engine_errors"] and not vacuous
